@@ -118,12 +118,17 @@ FirstBad(c, i) ==
 AllInputs(L) == {<<t, r>> : t \in [1..L -> {0, 1, 2, NaN}], r \in 1..L}
 Complete(c) == c.full = 0 \/ {<<Tuple(c, p[1], p[2]), RefAt(c, p[1], p[2])>> : p \in Cells(c)} = AllInputs(c.L)
 
+\* a case of a call SEQUENCE (one operator called on a Dataset whose content was changed in place between
+\* calls; layers = the content at the time of the call) runs only that operator: c.funcs, c.hascomb, c.haspop
+HasAllFreq(c) == \A f \in {"lesser_frequency", "equal_frequency", "greater_frequency"} :
+                    \E i \in 1..Len(c.funcs) : c.funcs[i] = f
+
 Clause(c) ==
   LET a == FirstBad(c, 1) IN
   IF ~Complete(c) THEN "MACHINERY_case_space_incomplete"
   ELSE IF a # "ok" THEN a
-  ELSE IF ~FreqSumOK(c) THEN "frequencies_do_not_sum_to_layer_count"
-  ELSE LET b == CombClause(c) IN
+  ELSE IF HasAllFreq(c) /\ ~FreqSumOK(c) THEN "frequencies_do_not_sum_to_layer_count"
+  ELSE LET b == IF c.hascomb = 1 THEN CombClause(c) ELSE "ok" IN
   IF b # "ok" THEN "combine:" \o b
   ELSE IF c.haspop = 0 THEN "ok"
   ELSE LET d == PopClause(c) IN
